@@ -25,7 +25,8 @@ META = {
         "matched; numbers pass through int; defaults validated and read at "
         "call time). Decides these structural clauses, not which of two "
         "overlapping matches finditer prefers on arbitrary text."
-        ' Also: lock-down of default_ns/default_ew/ocr_scrub (guard asks about the argument; attribute not read again), an omitted default falls back to MasterConfig.<p> (not a frozen constant), the settings are known to Config, sub_scrubber replaces by position.'),
+        ' Also: lock-down of default_ns/default_ew/ocr_scrub (guard asks about the argument; attribute not read again), an omitted default falls back to MasterConfig.<p> (not a frozen constant), the settings are known to Config, sub_scrubber replaces by position.'
+        " Round 7: the OCR pattern's N/S group is mandatory while the number class contains 'S'; Twp/Rge negatives on section lists; the config word dispatch sends layout names to .layout (not to a direction); PLSSDesc.parse feeds the parser the original text."),
     'assumptions': [
         "zero-width assertions are epsilon in the inclusion test (the repo "
         "regex is over-approximated, so a reported counterexample is a true "
